@@ -12,6 +12,7 @@ import Driver.C16
 import Driver.C05
 import Driver.C10
 import Driver.C12
+import Driver.C04
 /-! `votca_driver`: reads protocol lines `Cxx <op> <args…>` (implementation outputs included) on stdin,
 runs the executable model definitions (the ones the theorems are about) on the same inputs, prints
 `DISAGREE` / `PROPFAIL` lines for the cases that do not check and a `SUMMARY` at the end. -/
@@ -25,7 +26,8 @@ structure DAcc where
   printed : Nat := 0
   tags : Std.HashMap String Nat := {}
 
-def clip (s : String) : String := if s.length > 6000 then (s.take 6000).toString ++ " …" else s
+/-- long lines are cut when echoed, except whole-run records (C04), which are needed intact for the replay -/
+def clip (s : String) : String := if s.length > 6000 && !((s.splitOn " :: C04 ").length > 1) then (s.take 6000).toString ++ " …" else s
 def clipMsg (s : String) : String := if s.length > 400 then (s.take 400).toString ++ " …" else s
 
 def dispatch (toks : List String) : Verdict :=
@@ -42,6 +44,7 @@ def dispatch (toks : List String) : Verdict :=
   | "C05" :: r => Driver.C05.handle r
   | "C10" :: r => Driver.C10.handle r
   | "C12" :: r => Driver.C12.handle r
+  | "C04" :: r => Driver.C04.handle r
   | _ => { agree := false, msg := "bad-line unknown property", tag := "bad" }
 
 partial def loop (h : IO.FS.Stream) (maxPrint : Nat) (acc : DAcc) : IO DAcc := do
